@@ -28,6 +28,10 @@ Definition graph_eqb (a b : graph_t) : bool := list_eqb Z.eqb (fst a) (fst b) &&
 Definition vnode_eqb (a b : vnode) : bool :=
   (v_label a =? v_label b)%Z && (v_origin a =? v_origin b)%Z && Bool.eqb (v_flag a) (v_flag b).
 
+(* the recorded node order of a restricted copy lists exactly the nodes of the chosen component *)
+Definition rearranged (order comp : list Z) : bool :=
+  Nat.eqb (length order) (length comp) && set_eqb Z.eqb order comp.
+
 Definition check_case (c : case_t) : bool :=
   match c with
   | CQuota ctor caller limit ops outs =>
@@ -37,13 +41,16 @@ Definition check_case (c : case_t) : bool :=
   | CCP i o_nodes o_edges o_core o_per =>
       let g := cp_generate i in
       Nat.eqb (length (cp_rs i)) (cp_Nc i * cp_Np i)          (* one random() per (core, periphery) pair *)
+      && rearranged (cp_order i) (cp_component i)
       && list_eqb zpair_eqb (map (fun v => (v_label v, v_origin v)) (g_nodes g)) o_nodes
       && edges_same (g_edges g) o_edges
-      && list_eqb Z.eqb (nodes_of_origin g 0%Z) o_core
-      && list_eqb Z.eqb (nodes_of_origin g 1%Z) o_per
+      && rearranged (nodes_of_origin g 0%Z) o_core             (* a subgraph view lists its nodes in an order of its own *)
+      && rearranged (nodes_of_origin g 1%Z) o_per
   | CMod i o_nodes o_edges =>
       let g := mod_generate i in
       Nat.eqb (length (md_choices i)) (length (md_sats i))
+      && rearranged (m_order (md_centre i)) (module_component (md_Nc i) (md_centre i))
+      && forallb (fun m => rearranged (m_order m) (module_component (md_Ns i) m)) (md_sats i)
       && list_eqb vnode_eqb (g_nodes g) o_nodes
       && edges_same (g_edges g) o_edges
   | CPlc ptable N evs o_degs =>
